@@ -26,6 +26,7 @@ ASSUMPTIONS = [
 ]
 
 EPS = Fraction(1, 10**9)
+LINES = [(0, 10, 0.5), (0, 10, 1.0), (0.5, 20.5, 1.0), (0.5, 20.5, 0.5), (100, 140, 1.0)]
 
 
 def _ladders():
@@ -345,7 +346,10 @@ def sub_validation_enum(col, budget, seed, tier, shard, nshards):
         cases.append({"ladder": "CLASSIC", "type": "LOC", "side": "LAY", "price": p, "amount": 500.0,
                       "client": "bf", "currency": "GBP", "mbv": True})
     # line ranges, half and whole unit
-    for line in ((0, 10, 0.5), (0.5, 20.5, 1.0), (100, 140, 1.0), (-5.5, 5.5, 0.5), (1, 400, 1.0)):
+    # includes ranges that share min/max but differ in interval, in both orders (one control instance
+    # validates them all, as one framework does for several line markets)
+    for line in ((0, 10, 0.5), (0, 10, 1.0), (0.5, 20.5, 1.0), (0.5, 20.5, 0.5), (100, 140, 1.0), (-5.5, 5.5, 0.5),
+                 (1, 400, 1.0), (0, 10, 0.5)):
         lo, hi, iv = line
         k = lo - 2
         while k <= hi + 2:
@@ -427,7 +431,7 @@ def _strategy_case():
         out = {"ladder": lad, "type": typ, "side": side, "client": "sim", "currency": cur,
                "mbv": draw(st.booleans())}
         if lad == "LINE_RANGE":
-            line = draw(st.sampled_from([(0, 10, 0.5), (0.5, 20.5, 1.0), (100, 140, 1.0)]))
+            line = draw(st.sampled_from(LINES))
             out["line"] = list(line)
             k = draw(st.integers(-2, 45))
             base = line[0] + k * line[2]
@@ -464,7 +468,7 @@ def _stepper():
     for i, lad in enumerate(({"type": "CLASSIC"}, {"type": "FINEST"})):
         m = world.default_market(i, 3, ladder=lad)
         markets.append(m)
-    for j, line in enumerate(((0, 10, 0.5), (0.5, 20.5, 1.0), (100, 140, 1.0))):
+    for j, line in enumerate(LINES):
         m = world.default_market(2 + j, 2, ladder={"type": "LINE_RANGE", "min": line[0], "max": line[1], "interval": line[2]},
                                  betting_type="LINE", market_type="LINE", bsp_market=False)
         markets.append(m)
@@ -485,7 +489,7 @@ def check_full_path(case):
     from flumine.order.order import OrderStatus
 
     s = _stepper()
-    lines = {(0, 10, 0.5): 2, (0.5, 20.5, 1.0): 3, (100, 140, 1.0): 4}
+    lines = {l: 2 + j for j, l in enumerate(LINES)}
     mi = {"CLASSIC": 0, "FINEST": 1}.get(case["ladder"])
     if mi is None:
         mi = lines[tuple(case["line"])]
